@@ -56,3 +56,30 @@ NOT_CARRIED = ["metaclass wiring (SpecSetMeta / _resolve_registry_points): that 
                "add_dependency and _register_context_handler are called once per same-named datasource is assumed, not proved",
                "_get_ctx_dependencies (walk_tree over the dependency tree) is an assumed read-only function",
                "implementations for other contexts never contribute: follows from C02 (their context is a missing requirement)"]
+
+
+def bounded(check):
+    """bounded stand-in / native witness search: real spec sets, registrations interleaved with evaluations"""
+    import json, os, subprocess
+    n = 3 if check.tier == "quick" else 4
+    here = os.path.dirname(os.path.dirname(os.path.abspath(__file__)))
+    p = subprocess.run(["/venv/bin/python", os.path.join(here, "bounded", "specs_small_scope.py"), check.repo.root, str(n)],
+                       stdout=subprocess.PIPE, stderr=subprocess.PIPE, universal_newlines=True, timeout=3000)
+    line = (p.stdout.strip().splitlines() or ["{}"])[-1]
+    try:
+        info = json.loads(line)
+    except ValueError:
+        info = {"error": (p.stderr or p.stdout)[-400:]}
+    out = dict(name="the spec's value is the one of the latest implementation registered for the active context; overridden ones are not executed",
+               level="bounded",
+               bound="every sequence of <= %d implementations (HostContext / HostArchiveContext / both; value / skip), evaluated after every "
+                     "registration for both contexts" % n,
+               result=info, violation=(p.returncode == 1), error=(p.returncode not in (0, 1)))
+    if p.returncode == 1:
+        os.makedirs(os.path.join(here, "replays"), exist_ok=True)
+        path = os.path.join(here, "replays", "C05-bounded.json")
+        json.dump(dict(obligation="bounded:spec-resolution", witness=info,
+                       replay_cmd="/venv/bin/python %s %s %d" % (os.path.join(here, "bounded", "specs_small_scope.py"), check.repo.root, n)),
+                  open(path, "w"), indent=1)
+        out["replay"] = path
+    return [out]
